@@ -10,9 +10,9 @@ from harness.c07_util import World, Hang, time_limit
 from translate import c07_index_sites, c07_index_shapes, c07_index_del, c07_index_listops, c07_index_glue
 
 MANIFEST = dict(
-    technique='Rocq proof (index invariant preserved by every operation incl. defaultdict reads, by induction over operation sequences on several maps; every operation respects ix_equiv; search() sound and complete, and its multiplicity; make_unique loop termination by pigeonhole; CopySet iteration total and exception-free under arbitrary mutation; worldspawn pinned; EVERY function of vmf.py that writes an index, an entity list, VMF.spawn or a key dict - and the glue around them - read off the source as a program/shape and proved equal to the model operation whenever its named obligations hold; one statement c07_property over all generated programs with the census as a hypothesis) + five fail-closed ast translators (census of writers/escapes/key sources on a normalised function; programs/shapes of Entity.__setitem__ (lookup loop and maintenance chain), Entity.__delitem__, Entity.clear, Entity.__init__/parse/copy, Entity.pop, Entity.make_unique, VMF.__init__, VMF.parse (worldspawn replacement, entity loop), VMF.create_ent, VMF.add_ent, VMF.add_ents, VMF.remove_ent, _remove_copyset, VMF.search, CopySet.__iter__) + vm_compute correspondences (operation sequences incl. non-ASCII names under CPython\'s casefold table, search, search as written with multiplicities, iteration traces) + scan oracle on real VMF objects under a time limit',
-    text='Theorems in Props/C07.v about SM/IndexModel.v (entity list, spawn, per-entity key lists with case-insensitive first-spelling-wins lookup, by_class/by_target as maps from folded key to sets of entities, possibly holding empty sets left by defaultdict reads): the invariant "every index entry equals the scan of entities+worldspawn under the current folded classname / targetname (\'\' -> None), the worldspawn has class worldspawn and is listed under it" holds for VMF(), for VMF.parse of any tree, is preserved by every operation (create_ent/add_ent/add_ents/remove_ent, Entity(), copy between maps, []=, del (single and tuple), pop, popitem, setdefault, update, clear, make_unique, export, reading by_class[k]/by_target[k]) whatever its arguments and whether or not it raises, hence after every finite history over any number of maps; search() returns exactly the matching entities, each once per matching name plus once per matching class (c07_search_multiplicity, round 4); states that differ only in empty sets held by the index maps stay equivalent under every operation. The code is modelled from its source, regenerated on every run, and for each function a theorem says that every generated object passing its named obligations is the model operation for all inputs: Entity.__setitem__ (lookup loop + maintenance chain incl. the error path of the worldspawn guard), Entity.__delitem__, Entity.clear, VMF.add_ent/add_ents/remove_ent, _remove_copyset, VMF.search, CopySet.__iter__ (rounds 2-3) and, round 4, the glue: VMF.__init__ (= init), VMF.parse = constructor + worldspawn replacement + entity loop (= parse_init for every tree), VMF.create_ent, Entity.__init__/parse/copy, Entity.pop, Entity.make_unique (= make_unique). c07_property (round 4) composes them: for every record P of generated objects with programs_ok P and every census list (all functions that write by_class/by_target/VMF.entities/VMF.spawn/Entity._keys, from the census translator) with census_covered, every census function as written is the model operation on its modelled domain and preserves the invariant, and after every history of public operations as written on a map constructed as written the invariant holds, lookups by class and by name are exactly the scan, search as written is search_spec and the worldspawn is pinned; both hypotheses are instance obligations of every run. Faulty shapes are refuted by computed witnesses on reachable states (rounds 2-3 list, plus: constructor that does not file the spawn, parse re-assigning the spawn before dropping the placeholder, pop through _keys.pop, constructor filling the dict directly, make_unique looking a candidate up un-folded, search yielding the class set twice). Folding: str.casefold is a parameter; c07_table_fold_ok/idem show that ASCII lower-casing extended by any table of non-ASCII code points with folded images satisfies every fold hypothesis, and the correspondence runs the model with CPython\'s table for the names it uses (ß, İ, ...). Tied to vmf.py on every run by the fail-closed census, 58 shape/path obligations, and correspondences comparing, after every step, error code, entity list, key lists and both indexes of the model with real VMF objects (a fifth of the random histories with non-ASCII names; add_ents called with generator/iterator/map/list/tuple), search results as sets and as multisets, and the yield traces of index iterations with mutating bodies; a scan oracle checks the property directly on the implementation after every step (every history under a time limit: a hang is a violation with a replay).',
-    note='Trusted: Coq kernel + vm_compute, translate/c07_index_sites.py, c07_index_shapes.py, c07_index_del.py, c07_index_listops.py, c07_index_glue.py, the hand model SM/IndexModel.v (tied by the correspondences and, for every function of the census and the glue, by translator-generated programs proved equal to it), CPython (incl. the MutableMapping mixins popitem/setdefault/update, which Entity inherits: obligation popitem_setdefault_update_are_the_mutablemapping_mixins). No axioms. Composition in c07_property is by function: a call from one index-maintaining function to another is interpreted as the model operation, which the callee\'s own clause shows it to be (the generated programs are not inlined into each other; _remove_copyset = ix_remove is a separate clause). str.casefold is a parameter of the model; theorems assume it fixes the empty string and the literals classname/targetname/worldspawn, is idempotent (search, pop with the folded key), distributes over an appended decimal number (make_unique termination) and does not map nodeid to classname/targetname (clear) - proved for ASCII lower-casing and for every table folding with non-ASCII keys, checked against CPython for the code points used. Not modelled: nodeid processing (C08), conversion of non-string values (conv_kv), Entity.keys setter (clear+update), laziness and order of search() results (the generator runs when iterated; multiplicity is modelled), the empty sets that make_unique and iteration leave in the implementation\'s defaultdicts (shown irrelevant for every later operation: c07_run_respects_ix_equiv), VMF.export beyond its three key operations on the worldspawn. Out of domain: add_ent of the worldspawn object or of an entity created for another VMF, writing through the dict returned by the deprecated Entity.keys property.',
+    technique='Rocq proof (index invariant preserved by every operation incl. defaultdict reads, by induction over operation sequences on several maps; every operation respects ix_equiv; search() sound and complete, and its multiplicity; make_unique loop termination by pigeonhole; CopySet iteration total and exception-free under arbitrary mutation; worldspawn pinned; EVERY function of vmf.py that writes an index, an entity list, VMF.spawn or a key dict - and the glue around them - read off the source as a program/shape and proved equal to the model operation whenever its named obligations hold; one statement c07_property over all generated programs with the census as a hypothesis) + five fail-closed ast translators (census of writers/escapes/key sources on a normalised function; programs/shapes of Entity.__setitem__ (lookup loop and maintenance chain), Entity.__delitem__, Entity.clear, Entity.__init__/parse/copy, Entity.pop, Entity.make_unique, VMF.__init__, VMF.parse (worldspawn replacement, entity loop), VMF.create_ent, VMF.add_ent, VMF.add_ents, VMF.remove_ent, _remove_copyset, VMF.search (round 5: also plain .get lookups, `or` chains and truthiness tests), CopySet.__iter__; a flag cached on an entity object is a condition that no fact decides, so every obligation it matters for fails) + vm_compute correspondences (operation sequences incl. the deprecated `ent.keys = {...}` setter and non-ASCII names under CPython\'s casefold table, search, search as written with multiplicities, iteration traces) + scan oracle on real VMF objects under a time limit',
+    text='Theorems in Props/C07.v about SM/IndexModel.v (entity list, spawn, per-entity key lists with case-insensitive first-spelling-wins lookup, by_class/by_target as maps from folded key to sets of entities, possibly holding empty sets left by defaultdict reads): the invariant "every index entry equals the scan of entities+worldspawn under the current folded classname / targetname (\'\' -> None), the worldspawn has class worldspawn and is listed under it" holds for VMF(), for VMF.parse of any tree, is preserved by every operation (create_ent/add_ent/add_ents/remove_ent, Entity(), copy between maps, []=, del (single and tuple), pop, popitem, setdefault, update, clear, make_unique, export, reading by_class[k]/by_target[k]) whatever its arguments and whether or not it raises, hence after every finite history over any number of maps; search() returns exactly the matching entities, each once per matching name plus once per matching class (c07_search_multiplicity, round 4); states that differ only in empty sets held by the index maps stay equivalent under every operation. The code is modelled from its source, regenerated on every run, and for each function a theorem says that every generated object passing its named obligations is the model operation for all inputs: Entity.__setitem__ (lookup loop + maintenance chain incl. the error path of the worldspawn guard), Entity.__delitem__, Entity.clear, VMF.add_ent/add_ents/remove_ent, _remove_copyset, VMF.search, CopySet.__iter__ (rounds 2-3) and, round 4, the glue: VMF.__init__ (= init), VMF.parse = constructor + worldspawn replacement + entity loop (= parse_init for every tree), VMF.create_ent, Entity.__init__/parse/copy, Entity.pop, Entity.make_unique (= make_unique). c07_property (round 4) composes them: for every record P of generated objects with programs_ok P and every census list (all functions that write by_class/by_target/VMF.entities/VMF.spawn/Entity._keys, from the census translator) with census_covered, every census function as written is the model operation on its modelled domain and preserves the invariant, and after every history of public operations as written on a map constructed as written the invariant holds, lookups by class and by name are exactly the scan, search as written is search_spec and the worldspawn is pinned; both hypotheses are instance obligations of every run; c07_property_generated_only (round 5) instantiates the folding with table_fold tab, so that all hypotheses are booleans over generated objects (tab_non_ascii, tab_closed, census_covered, programs_ok) and only the domain predicates fn_dom/ops_dom remain semantic. Faulty shapes are refuted by computed witnesses on reachable states (rounds 2-3 list, plus: constructor that does not file the spawn, parse re-assigning the spawn before dropping the placeholder, pop through _keys.pop, constructor filling the dict directly, make_unique looking a candidate up un-folded, search yielding the class set twice; round 5: membership read from a flag cached on the entity in __setitem__ / remove_ent, search written as `by_target.get(name) or by_class.get(name)`). Folding: str.casefold is a parameter; c07_table_fold_ok/idem show that ASCII lower-casing extended by any table of non-ASCII code points with folded images satisfies every fold hypothesis, and the correspondence runs the model with CPython\'s table for the names it uses (ß, İ, ...). Tied to vmf.py on every run by the fail-closed census, 58 shape/path obligations, and correspondences comparing, after every step, error code, entity list, key lists and both indexes of the model with real VMF objects (a fifth of the random histories with non-ASCII names; add_ents called with generator/iterator/map/list/tuple), search results as sets and as multisets, and the yield traces of index iterations with mutating bodies; a scan oracle checks the property directly on the implementation after every step (every history under a time limit: a hang is a violation with a replay).',
+    note='Trusted: Coq kernel + vm_compute, translate/c07_index_sites.py, c07_index_shapes.py, c07_index_del.py, c07_index_listops.py, c07_index_glue.py, the hand model SM/IndexModel.v (tied by the correspondences and, for every function of the census and the glue, by translator-generated programs proved equal to it), CPython (incl. the MutableMapping mixins popitem/setdefault/update, which Entity inherits: obligation popitem_setdefault_update_are_the_mutablemapping_mixins). No axioms. Composition in c07_property is by function: a call from one index-maintaining function to another is interpreted as the model operation, which the callee\'s own clause shows it to be (the generated programs are not inlined into each other; _remove_copyset = ix_remove is a separate clause). str.casefold is a parameter of the model; theorems assume it fixes the empty string and the literals classname/targetname/worldspawn, is idempotent (search, pop with the folded key), distributes over an appended decimal number (make_unique termination) and does not map nodeid to classname/targetname (clear) - proved for ASCII lower-casing and for every table folding with non-ASCII keys, checked against CPython for the code points used. Entity.keys setter: obligation keys_setter_is_clear_then_update (it is clear_keys() = clear followed by update(value)); the histories exercise it and the model runs Clear then Update. A condition on an attribute of the entity object (MCCached / VCCached) is given the value false by the interpreters; no theorem about programs that pass their obligations depends on that value (the facts never decide it, so both branches must do the same). Not modelled: nodeid processing (C08), conversion of non-string values (conv_kv), laziness and order of search() results (the generator runs when iterated; multiplicity is modelled), the empty sets that make_unique and iteration leave in the implementation\'s defaultdicts (shown irrelevant for every later operation: c07_run_respects_ix_equiv), VMF.export beyond its three key operations on the worldspawn. Out of domain: add_ent of the worldspawn object or of an entity created for another VMF, writing through the dict returned by the deprecated Entity.keys property.',
 )
 
 NAMES = ['a', 'A', 'Ab', 'aB', '', 'a1', 'worldspawn']
@@ -359,8 +359,13 @@ def search(ck: Ck) -> None:
             small = [o for o in ops[:ops.index(p[1]) + 1]] if p[1] in ops else ops
         else:
             small = shrink(ops[:p[0] + 1] if len(ops) > p[0] + 1 and same(ops[:p[0] + 1]) else ops, same)
+        q = first_problem(small)
+        if q is None or classify(q[1], q[2]) != key:
+            # the order in which an index iteration yields entities (set order = object addresses) can differ between two runs
+            # of one history, so a faulty implementation may not fail the same way twice: keep the history as first observed
+            small, q = list(ops), p
         if key not in found or len(small) < len(found[key][0]):
-            found[key] = (small, first_problem(small))
+            found[key] = (small, q)
     for key, (ops, p) in sorted(found.items()):
         ck.violation(key, f'{p[2][0]} {p[2][1]} after step {p[0]} {p[1]!r}: {p[2][2]!r}',
                      {'ops': ops, 'problem': list(p), 'how': 'checks.c07.first_problem(ops): World(2 maps); scan after every step'})
